@@ -7,14 +7,18 @@ CONFIG = dict(
              'or not; registered in random order) and hibernation distance 0..5, optionally with one injected failure (Consume error at '
              'a commit index, a declared output left out, Hibernate/Boot error). Histories: ex<n> = every parent assignment on n<=4 '
              'commits (thorough: 5), lin = linear, dag = random DAGs up to 14 commits with 2-3 parent merges, several roots, equal and '
-             'non-monotone committer times, hist = histories of harness/synth.GenHist. Non-trivial = at least 2 items and at least 2 commit '
+             'non-monotone committer times, hist = histories of harness/synth.GenHist, octo = harness/synth.GenOctopusShape: 1-2 octopus merges of '
+             '3..7 parents per history (half of the cases aimed at parents = distance+3 / +4, where ONE boot action covers several branches), arms of '
+             'different lengths, chains after the merge, 1..3 roots, distance 1..4, at least one hibernateable item. Non-trivial = at least 2 items and at least 2 commit '
              'steps in the executed plan; distinct = distinct (distance, items, injection, commits).',
         exhaustive_note='every parent assignment (each commit chooses any subset of the earlier ones: several roots, octopus and redundant merges, '
                         'disconnected parts) on 1..4 commits (thorough: 5) x 3 fixed pipelines x 2 hibernation distances',
         assumptions=[
             'the plan predicates head_emergeb, head_firstb, contigb, distinctb, liveb (coq/theories/Pipeline/RunModel.v) are hypotheses of '
             'C14_is_merge / C14_once_in_order / C14_summary; they are evaluated on the plan of every real run (a failure is reported as a '
-            'correspondence break); the plan validator of C02/C04 implies them',
+            'correspondence break); the plan validator of C02/C04 implies them - proved in Coq for liveb, contigb, distinctb and "plan[0] is an emerge" '
+            '(C14_plan_predicates_composed, coq/theories/Compose/PlanRun.v, docs/COMPOSITION.md); the Commit field of plan[0] (head_firstb / head_carriesb) is '
+            'not inspected by the validators and stays a hypothesis',
             'a runActionCommit always carries a commit (appendCommit in generatePlan is its only producer)',
             'item behaviour (Consume, Merge, Hibernate, Boot, Finalize) is an arbitrary function of the state of the Go object it is called on; '
             'Fork is ForkCopyPipelineItem or ForkSamePipelineItem; an item does not modify the deps map it is handed',
